@@ -575,7 +575,7 @@ pub fn check_c10(tier: &str) -> i32 {
         "all event sequences up to depth D with at most K deviations over {submit (2 handles; future, callback and FfiChannel style), reply ok/exception/bad/partial+rest/stale, bad header, read error, EOF, write error, advance to the next deadline, advance 1 ms, enable, disable, set-decode, shutdown, drop handle, abort task, connect ok/fail} on the production TcpChannelTask (connector seam), queue capacity 2 and 16, max_response_timeouts None/1/2; every path is extended by an epilogue (drop all handles, expire all timers). After every event the set of completed requests and their results is compared with the reference client model; no request may complete twice or stay pending at the horizon. states = distinct reference-model states reached",
     );
     let thorough = rep.thorough();
-    let (depth, k) = if thorough { (7, 3) } else { (5, 2) };
+    let (depth, k) = if thorough { (7, 3) } else { (6, 2) };
     rep.bounds = json!({"depth_after_prefix": depth, "max_deviations": k, "max_requests": 3, "handles": 2});
     let cfgs = vec![
         SmCfg { cap: 16, max_timeouts: None, retry_min: 3, retry_max: 12, handles: 2, decode: (0, 0, 0) },
@@ -634,7 +634,7 @@ pub fn check_c11(tier: &str) -> i32 {
         "all event sequences up to depth D over {submit (1-3 queued requests), matching reply, frame with id cur-1, cur-2, cur+1, cur+2, cur-32768 (while outstanding and while idle; idle cur-1 is a duplicate of the last accepted reply), partial reply + rest, advance to deadline, read error + reconnect} on the production TcpChannelTask; the wire log (request order, one outstanding request, consecutive ids per dequeued request) and the results (built only from the frame whose id matches) are compared with the reference client model; plus one path of 65,600 request/reply rounds with stale replies injected around the id wrap",
     );
     let thorough = rep.thorough();
-    let depth = if thorough { 8 } else { 6 };
+    let depth = if thorough { 8 } else { 7 };
     rep.bounds = json!({"depth_after_prefix": depth, "max_requests": 3, "wrap_rounds": 65600});
     let cfg = SmCfg { cap: 16, max_timeouts: None, retry_min: 3, retry_max: 12, handles: 1, decode: (0, 0, 0) };
     let filter = |e: &Ev, _m: &ClientModel| {
